@@ -28,7 +28,9 @@ type Cluster struct {
 	Leaders   []*CNode
 	Followers []*CNode // all followers
 	Codec     bool
-	mu        sync.Mutex
+	// CheckCodec: assert the round-trip law on every message (C20)
+	CheckCodec bool
+	mu         sync.Mutex
 	links     map[string]*ReplLink // "leaderID>follower name"
 	inflight  int                  // deliveries currently crossing a link
 	qfaults   map[string]*QFault   // follower name -> fault for its next query
@@ -476,6 +478,7 @@ func (c *Cluster) xferFields(fields core.Fields) core.Fields {
 	out := &rpc.RemoteQueryResult{}
 	c.roundTrip(&rpc.RemoteQueryResult{Fields: fields}, out)
 	c.e.Count("codec.fields")
+	c.checkFields(fields, out.Fields)
 	return out.Fields
 }
 
@@ -486,6 +489,14 @@ func (c *Cluster) xferRow(key bytemap.ByteMap, vals core.Vals) (bytemap.ByteMap,
 	out := &rpc.RemoteQueryResult{}
 	c.roundTrip(&rpc.RemoteQueryResult{Key: key, Vals: vals}, out)
 	c.e.Count("codec.row")
+	c.checkBytes("row key", key, out.Key)
+	if len(vals) == len(out.Vals) {
+		for i := range vals {
+			c.checkBytes("series", vals[i], out.Vals[i])
+		}
+	} else {
+		c.checkBytes("series count", []byte{byte(len(vals))}, []byte{byte(len(out.Vals))})
+	}
 	return out.Key, out.Vals
 }
 
@@ -496,6 +507,18 @@ func (c *Cluster) xferFlatRow(row *core.FlatRow) *core.FlatRow {
 	out := &rpc.RemoteQueryResult{}
 	c.roundTrip(&rpc.RemoteQueryResult{Row: row}, out)
 	c.e.Count("codec.flatrow")
+	if out.Row != nil && row != nil {
+		c.checkBytes("flat row key", row.Key, out.Row.Key)
+		if row.TS != out.Row.TS || len(row.Values) != len(out.Row.Values) {
+			c.checkBytes("flat row shape", []byte(fmt.Sprint(row.TS, len(row.Values))), []byte(fmt.Sprint(out.Row.TS, len(out.Row.Values))))
+		} else {
+			for i := range row.Values {
+				if row.Values[i] != out.Row.Values[i] && !(row.Values[i] != row.Values[i] && out.Row.Values[i] != out.Row.Values[i]) {
+					c.checkBytes("flat row value", []byte(fmt.Sprint(row.Values[i])), []byte(fmt.Sprint(out.Row.Values[i])))
+				}
+			}
+		}
+	}
 	return out.Row
 }
 
